@@ -17,7 +17,8 @@ RULE = ('Rule-based state machine over one instance of every real cassette type 
         'values and metadata from the faithful-domain generators (objects-without-aliasing and '
         'aliasing-without-list-state families, shared sub-objects across keys). Oracle: dict model id -> (keys, '
         'data, metadata) built independently from the case description; unknown ids must raise NoSuchRecording. '
-        'Non-trivial: a fetch of a recording with >= 2 keys and a non-scalar value made after a later save, or an '
+        'A second part has four threads save different recordings into one cassette at the same time (OS scheduling) and '
+        'fetches them all. Non-trivial: a fetch of a recording with >= 2 keys and a non-scalar value made after a later save, or an '
         'unknown-id fetch. Distinct = distinct history prefix up to and including that step.')
 ASSUMPTIONS = ['values restricted to the faithful domain of jsonpickle 0.9.3 on this interpreter (DESIGN.md 2.2); '
                'whole recordings additionally pass decode(encode(x)) == x on plain containers',
@@ -200,6 +201,9 @@ def make_machine(ctx):
 
 
 def replay(ctx, case):
+    if isinstance(case, dict) and 'concurrent' in case:
+        concurrent_saves(ctx)
+        return
     replay_history(Interp(ctx), case)
 
 
@@ -222,8 +226,61 @@ def known_witness(ctx):
                 ctx.note('known finding %s no longer reproduces' % kf['key'])
 
 
+def concurrent_saves(ctx, nthreads=4, per_thread=15):
+    """Several threads of one process save different recordings into the same cassette at the same time."""
+    import threading
+    with zoo.Zoo(kinds=('memory', 'file', 's3'), s3_prefixes=('', 'p')) as z:
+        for cas in z.cassettes:
+            name = z.name(cas)
+            saved, errors = [], []
+            start = threading.Barrier(nthreads)
+
+            def worker(t):
+                try:
+                    start.wait(5)
+                except threading.BrokenBarrierError:
+                    pass
+                for n in range(per_thread):
+                    try:
+                        rec = cas.create_new_recording('T%d' % t)
+                        rec.set_data('who', [t, n])
+                        rec.set_data('payload', 'x' * (50 * (n + 1)))
+                        rec.add_metadata({'t': t, 'n': n})
+                        cas.save_recording(rec)
+                        saved.append((rec.id, t, n))
+                    except Exception as e:  # pylint: disable=broad-except
+                        errors.append((t, n, '%s: %s' % (type(e).__name__, e)))
+
+            ths = [threading.Thread(target=worker, args=(t,)) for t in range(nthreads)]
+            for th in ths:
+                th.start()
+            for th in ths:
+                th.join()
+            case = {'concurrent': name, 'threads': nthreads, 'per_thread': per_thread}
+            if errors:
+                raise Violation('%s: save failed while other threads were saving: %r' % (name, errors[:3]),
+                                'concurrent-save', case=case)
+            for rid, t, n in saved:
+                try:
+                    got = cas.get_recording(rid)
+                    ok = got.id == rid and got.get_data('who') == [t, n] and got.get_metadata() == {'t': t, 'n': n} \
+                        and got.get_data('payload') == 'x' * (50 * (n + 1)) and \
+                        cas.get_recording_metadata(rid) == {'t': t, 'n': n}
+                    detail = 'fetched id %r who %r metadata %r' % (got.id, got.get_data('who'), got.get_metadata())
+                except Exception as e:  # pylint: disable=broad-except
+                    ok, detail = False, '%s: %s' % (type(e).__name__, e)
+                if not ok:
+                    raise Violation('%s: recording %s saved by thread %d (#%d) while other threads were saving does not '
+                                    'round-trip: %s' % (name, rid, t, n, detail), 'concurrent-save', case=case)
+            ctx.case(case, True, classes=('concurrent-saves:' + z.kind(cas),))
+
+
 def run(ctx):
     if ctx.shard == 0:
         known_witness(ctx)
+    from pbt.runner import guarded
+    for rounds in range(ctx.pick(2, 10)):
+        if not guarded(ctx, {'concurrent': 'all', 'round': rounds, 'shard': ctx.shard}, lambda c: concurrent_saves(ctx)):
+            return
     run_machine(ctx, make_machine(ctx), ctx.pick(120, 600), ctx.pick(30, 40), label='machine')
     ctx.extra['value_filter'] = dict(V.STATS)
